@@ -292,6 +292,12 @@ func (p *envParser) parseMarkerExpr() (marker, error) {
 	if err != nil {
 		return nil, err
 	}
+	// A trailing ".*" only makes a version pattern with == and != (PEP 440).
+	// With any other operator pip does not take the operand for a version and
+	// falls back to comparing strings.
+	if strings.HasSuffix(r.value, ".*") && o != markerOpEqualEqual && o != markerOpNotEqual {
+		r.version = nil
+	}
 	expr := markerExpr{
 		op:    o,
 		left:  l,
